@@ -42,6 +42,11 @@ fn bodies() -> Vec<Node> {
         Node::Class { neg: false, items: vec![ClassItem::Ch('a' as u32), ClassItem::Ch('b' as u32)] },
         q(lit('a'), 0, Some(1), true),
         Node::Alt(vec![Node::Empty, lit('a')]),
+        // lookarounds that contain loops of their own (loop bookkeeping inside vs outside the lookaround)
+        Node::Cat(vec![Node::Look { behind: false, neg: false, body: Box::new(q(Node::NonCap(Box::new(Node::Cat(vec![lit('a'), lit('b')]))), 0, None, false)) }, q(lit('a'), 0, Some(1), false)]),
+        Node::Cat(vec![Node::Look { behind: true, neg: false, body: Box::new(q(lit('a'), 0, None, false)) }, q(lit('a'), 0, Some(1), false)]),
+        Node::Cat(vec![q(lit('a'), 0, Some(1), false), Node::Look { behind: false, neg: true, body: Box::new(q(lit('b'), 1, None, false)) }]),
+        Node::Look { behind: false, neg: false, body: Box::new(q(q(lit('a'), 0, Some(1), false), 0, None, false)) },
     ]
 }
 
@@ -61,10 +66,26 @@ fn nestings(depth: u32) -> Vec<Node> {
         }
         all.extend(next.iter().cloned());
         // wrapping choice for the next level: capture group for a third of them keeps the count manageable
+        // ... and a fifth of them preceded by a lookaround that has a loop of its own (loop slots inside / after a lookaround)
+        let look_loop = |k: usize| -> Node {
+            match k % 3 {
+                0 => Node::Look { behind: false, neg: false, body: Box::new(q(Node::NonCap(Box::new(Node::Cat(vec![lit('a'), lit('b')]))), 0, None, false)) },
+                1 => Node::Look { behind: true, neg: false, body: Box::new(q(lit('a'), 0, None, false)) },
+                _ => Node::Look { behind: false, neg: true, body: Box::new(q(lit('b'), 1, Some(2), true)) },
+            }
+        };
         level = next
             .into_iter()
             .enumerate()
-            .map(|(i, n)| if i % 3 == 0 { Node::Group { name: None, body: Box::new(n) } } else { n })
+            .map(|(i, n)| {
+                if i % 3 == 0 {
+                    Node::Group { name: None, body: Box::new(n) }
+                } else if i % 5 == 1 {
+                    Node::Cat(vec![look_loop(i / 5), Node::NonCap(Box::new(n))])
+                } else {
+                    n
+                }
+            })
             .collect();
     }
     all
@@ -321,7 +342,7 @@ pub fn run(ctx: &Ctx) -> i32 {
     ctx.agg.lock().unwrap().exhaustive = true;
     ctx.finish(
         "exploration",
-        "EXHAUSTIVE slice: all nestings (depth <= 2 quick, <= 3 thorough) of 10 quantifier shapes x {greedy, lazy} over 13 bodies {a, a?, a*, a??, (?:), (a|), (|a), (a)?, (a?)\\1, (?=a), (?<=a), \\b, [ab]} with tails {b, $, none}, placed forward / inside a lookbehind / inside a lookahead, on ALL haystacks in {a,b}^<=4, both executors, both pipelines; oracle: the fuel hook's deterministic step counter - every search must finish within a fixed budget (>= 20x the worst count observed on the repaired tree: 5M steps for the depth-2 slice, 400M for depth 3), the backtrack store must stay <= 4*steps, neither executor may need more than 200x the other's steps (+slack), and neither may need more than 500x the steps of the ES reference model's own ordered search (esref counts its steps) - so a hang or blow-up is caught without a clock even when both executors share it. Plus random nested-quantifier patterns with |H| <= 10 judged by the mutual ratio. Non-trivial = pattern has a quantifier and the run pushed backtracking state.",
+        "EXHAUSTIVE slice: all nestings (depth <= 2 quick, <= 3 thorough) of 10 quantifier shapes x {greedy, lazy} over 17 bodies {a, a?, a*, a??, (?:), (a|), (|a), (a)?, (a?)\\1, (?=a), (?<=a), \\b, [ab], (?=(?:ab)*)a?, (?<=a*)a?, a?(?!b+), (?=(?:a?)*)} with tails {b, $, none}, placed forward / inside a lookbehind / inside a lookahead, on ALL haystacks in {a,b}^<=4, both executors, both pipelines; oracle: the fuel hook's deterministic step counter - every search must finish within a fixed budget (>= 20x the worst count observed on the repaired tree: 5M steps for the depth-2 slice, 400M for depth 3), the backtrack store must stay <= 4*steps, neither executor may need more than 200x the other's steps (+slack), and neither may need more than 500x the steps of the ES reference model's own ordered search (esref counts its steps) - so a hang or blow-up is caught without a clock even when both executors share it. Plus random nested-quantifier patterns with |H| <= 10 judged by the mutual ratio. Non-trivial = pattern has a quantifier and the run pushed backtracking state.",
         &["hook: fuel counter in both executors (ticks per instruction / backtrack pop)", "the wall clock never decides; budget overruns of BOTH executors on random cases are skipped and counted", "esref (reference model) provides steps(reference ordered search)"],
     )
 }
